@@ -199,6 +199,17 @@ def function_inputs(target, seed=0, n=400):
             if target == 'segment.detection':
                 d.update(window=rng.choice([0.5, 0.25, 3.0]), beta=rng.choice([1.0, 2.0]))
             yield d
+    if target == 'util.merge_labeled_intervals':
+        def seg(end, tag):
+            k = rng.randint(1, 4)
+            cuts = sorted(rng.sample([0.25 * x for x in range(1, int(end / 0.25))], k - 1)) if k > 1 else []
+            b = [0.0] + cuts + [end]
+            return [[b[i], b[i + 1]] for i in range(len(b) - 1)], ['%s%d' % (tag, i) for i in range(len(b) - 1)]
+        for _ in range(n):
+            end = rng.choice([2.0, 3.0, 4.5])
+            xi, xl = seg(end, 'x')
+            yi, yl = seg(end if rng.random() < 0.9 else end + 0.5, 'y')
+            yield dict(x_intervals=xi, x_labels=xl, y_intervals=yi, y_labels=yl)
     if target == 'key.weighted_score':
         ks = ['C major', 'c minor', 'G major', 'a minor', 'A major', 'e minor', 'Eb major', 'd# minor', 'X', 'x', 'F# other', 'Gb other', 'B major', 'Cb' ]
         ks = [k for k in ks if ' ' in k or k.lower() == 'x']
